@@ -91,6 +91,12 @@ func (f *Feature) UnmarshalJSON(data []byte) error {
 		return err
 	}
 
+	if doc == nil {
+		// a null with whitespace around it, same as the literal above.
+		*f = Feature{}
+		return nil
+	}
+
 	return featureUnmarshalFinish(doc, f)
 }
 
